@@ -594,7 +594,7 @@ func (f *frame) applyContract(fc *FuncC, pkg *types.Package, pnames, rnames []st
 	}
 	// preconditions
 	for _, r := range fc.Requires {
-		if !f.eng().clauseActive(r) {
+		if !f.eng().clauseActive(r) || r.Kind == "relies" {
 			continue
 		}
 		g := f.transBool(r.Expr, env)
